@@ -1527,6 +1527,12 @@ int _vnadata_load_touchstone(vnadata_internal_t *vdip, FILE *fp,
 		    tps.tps_filename, tps.tps_line);
 	    goto out;
 	}
+	if (tps.u.tps_double < 0.0) {
+	    _vnadata_error(vdip, VNAERR_SYNTAX, "%s (line %d) error: "
+		    "frequency cannot be negative",
+		    tps.tps_filename, tps.tps_line);
+	    goto out;
+	}
 	if (findex != 0 &&
 		tps.tps_frequency_multiplier * tps.u.tps_double <=
 		vnadata_get_frequency(vdp, findex - 1)) {
